@@ -661,6 +661,33 @@ def buildTypeSystemDocument (ctx : Ctx) (fuel : Nat) (pairs : List Pair) : M Gql
         (buildTypeSystemDefinitionOrExtension ctx fuel)
     else .error (.unexpectedRule "Document" p.rule)
 
+/-! ### `validate_unicode_escapes` (mod.rs): escapes the grammar accepts but that denote no character -/
+
+mutual
+/-- `Pairs::flatten()`: all pairs in pre-order -/
+def flat : Pair → List Pair
+  | .mk r s e cs => .mk r s e cs :: flatList cs
+def flatList : List Pair → List Pair
+  | [] => []
+  | p :: ps => flat p ++ flatList ps
+end
+
+def escapeDenotesChar (digits : List Char) : Bool :=
+  match parseHexU32 digits with
+  | .ok n => validScalar n
+  | .error _ => false
+
+/-- is `p` a `\uXXXX` / `\u{X…}` escape that denotes no Unicode scalar value? -/
+def badEscape (ctx : Ctx) (p : Pair) : Bool :=
+  let s := asStr ctx p
+  if p.rule = R.EscapedUnicode4 then !escapeDenotesChar (s.drop 2)
+  else if p.rule = R.EscapedUnicodeBrace then !escapeDenotesChar ((s.drop 3).take (s.length - 4))
+  else false
+
+/-- offset of the first offending escape, if any -/
+def firstBadEscape (ctx : Ctx) (ps : List Pair) : Option Nat :=
+  ((flatList ps).find? (badEscape ctx)).map Pair.start
+
 inductive Outcome (α : Type) where
   | ok (a : α)
   /-- `Err(ParseError)` with the 0-based position -/
@@ -684,10 +711,14 @@ def parseWith {α} (g : G) (mkCtx : List Char → Ctx) (root : RuleId) (build : 
   | .error att => let lc := lineCol inp att; .err lc.1 lc.2
   | .outOfFuel => .outOfFuel
   | .pairs ps =>
-    match build (mkCtx inp) (4 * inp.length + 64) ps with
-    | .ok a => .ok a
-    | .error .fuel => .outOfFuel
-    | .error p => .panic p
+    let ctx := mkCtx inp
+    match firstBadEscape ctx ps with
+    | some off => let lc := lineCol inp off; .err lc.1 lc.2
+    | none =>
+      match build ctx (4 * inp.length + 64) ps with
+      | .ok a => .ok a
+      | .error .fuel => .outOfFuel
+      | .error p => .panic p
 
 /-- model of `parse_operation_document` -/
 def parseOp (inp : List Char) : Outcome Gql.Doc :=
